@@ -430,6 +430,13 @@ def _m_delta_dir(d):
     return m
 
 
+def _m_delta_copy(dst, src):
+    """set the density of direction dst to the current density of direction src (they differ in every shape family)"""
+    def m(ctx, o):
+        setattr(o, 'delta_' + dst, getattr(o, 'delta_' + src))
+    return m
+
+
 def m_sample_size(ctx, o):
     if _is_container(o):      # container: n -> element delta 1/(n-1)
         o.sample_size = 3 if o.pdimension == 1 else [4] + [3] * (o.pdimension - 1)
@@ -538,6 +545,7 @@ MUTATORS = {
     'degree': m_degree, 'knotvector': m_knotvector, 'knotvector_all': m_knotvector_all, 'ctrlpts': m_ctrlpts,
     'ctrlptsw': m_ctrlptsw, 'weights': m_weights, 'set_ctrlpts': m_set_ctrlpts, 'ctrlpts2d': m_ctrlpts2d,
     'delta': m_delta, 'delta_u': _m_delta_dir('u'), 'delta_v': _m_delta_dir('v'), 'delta_w': _m_delta_dir('w'),
+    'delta_v=u': _m_delta_copy('v', 'u'), 'delta_u=v': _m_delta_copy('u', 'v'), 'delta_w=v': _m_delta_copy('w', 'v'),
     'sample_size': m_sample_size, 'sample_size_u': _m_sample_size_dir('u'), 'sample_size_v': _m_sample_size_dir('v'),
     'sample_size_w': _m_sample_size_dir('w'), 'evaluator': m_evaluator, 'tessellator': m_tessellator,
     'insert_knot': m_insert_knot, 'insert_knot_v': m_insert_knot_v, 'insert_knot_w': m_insert_knot_w,
@@ -573,10 +581,10 @@ def _legal(kname, tier):
             ms = COMMON + ['reverse', 'insert_knot_sym']
     elif K['geo'] == 'Surface':
         ms = COMMON + ['knotvector_all', 'ctrlpts2d', 'delta_u', 'sample_size_u', 'tessellator', 'insert_knot_v',
-                       'transpose', 'flip'] + (['delta_v', 'sample_size_v', 'insert_knot_sym'] if th else [])
+                       'transpose', 'flip', 'delta_v=u', 'delta_u=v'] + (['delta_v', 'sample_size_v', 'insert_knot_sym'] if th else [])
     else:
-        ms = COMMON + ['knotvector_all', 'delta_u', 'sample_size_u', 'insert_knot_w'] + \
-             (['delta_v', 'delta_w', 'sample_size_v', 'sample_size_w'] if th else [])
+        ms = COMMON + ['knotvector_all', 'delta_u', 'sample_size_u', 'insert_knot_w', 'delta_v=u', 'delta_w=v'] + \
+             (['delta_v', 'delta_w', 'sample_size_v', 'sample_size_w', 'delta_u=v'] if th else [])
     if K['rat']:
         ms = ms + RATIONAL
     return ms
